@@ -63,6 +63,8 @@ class Server(ae_mod.AE):
             r = pydicom.Dataset()
             r.PatientID = who
             r.PatientName = 'Match^%s^%d' % (who, i)
+            if str(getattr(ds, 'PatientName', '')) == 'BIG':
+                r.PatientComments = ('%s-%d-' % (who, i)) * 400          # responses of several thousand bytes
             out.append((r, statuses.C_FIND_PENDING))
         return iter(out)
 
@@ -82,9 +84,11 @@ def client_thread(i, remote, barrier, nstores, abort_after, results, rnd, shared
     client = 'C%02d' % i
     ts = TSS[i % 3] if shared_ae is None else TSS[0]
     classes = ([CT, MR] if i % 2 == 0 else [MR, CT]) if shared_ae is None else [CT, MR]   # the same context ids mean different classes
-    cl = ae_mod.ClientAE(client, supported_ts=[ts], max_pdu_length=[256, 1024, 16384, 65536][i % 4]).add_scu(sc.storage_scu, classes)
+    own_max = [256, 1024, 16384, 65536][i % 4] if shared_ae is None else shared_ae.max_pdu_length
+    cl = ae_mod.ClientAE(client, supported_ts=[ts], max_pdu_length=own_max).add_scu(sc.storage_scu, classes).add_scu(sc.qr_find_scu)
     cl.timeout = 60
-    rec = {'client': client, 'aborted': abort_after is not None, 'error': '', 'negotiated': [], 'requests': []}
+    rec = {'client': client, 'aborted': abort_after is not None, 'error': '', 'negotiated': [], 'requests': [], 'extras': [],
+           'pdus': {'maxClient': own_max, 'maxServer': 16384, 'fromServer': [], 'fromClient': []}}
     mids = []
     results[i] = (rec, mids)
     for _ in range(i * 7):                 # the per-thread counters of different threads are at different values
@@ -126,6 +130,21 @@ def client_thread(i, remote, barrier, nstores, abort_after, results, rnd, shared
                 if shared_ae is not None and k == i % nstores:
                     import time
                     time.sleep(0.05 * (i % 3))      # staggered, non-LIFO exits of associations of ONE requesting entity
+            if shared_ae is None:
+                # a query on the same association whose responses are much larger than small clients' maximum
+                q = pydicom.Dataset()
+                q.PatientID = client
+                q.PatientName = 'BIG'
+                try:
+                    got = list(assoc.get_scu(sc.PATIENT_ROOT_FIND_SOP_CLASS)(q, pynetdicom2._new_msg_id()))
+                    owners = {str(d.PatientID) for d, st in got if d is not None}
+                    npend = len([1 for d, st in got if st.is_pending])
+                    if owners != {client} or npend != 2 or len(got) != 3:
+                        rec['extras'].append('C-FIND on this association: owners %s, %d pending of %d responses' % (sorted(owners), npend, len(got)))
+                    elif any(client not in str(d.PatientComments) for d, st in got if d is not None):
+                        rec['extras'].append('C-FIND responses carry another content')
+                except Exception as exc:      # noqa
+                    rec['extras'].append('C-FIND on this association raised %s: %s' % (type(exc).__name__, exc))
     except RuntimeError:
         pass
     except Exception as exc:      # noqa
@@ -137,7 +156,8 @@ def find_thread(i, remote, results):
     q = pydicom.Dataset()
     q.PatientID = client
     q.PatientName = ''
-    rec = {'client': client, 'aborted': False, 'error': '', 'negotiated': [{'ctx': 1, 'ts': 'any', 'as': 'find'}], 'requests': []}
+    rec = {'client': client, 'aborted': False, 'error': '', 'negotiated': [{'ctx': 1, 'ts': 'any', 'as': 'find'}], 'requests': [], 'extras': [],
+           'pdus': {'maxClient': 0, 'maxServer': 0, 'fromServer': [], 'fromClient': []}}
     mids = []
     results[i] = (rec, mids)
     try:
@@ -192,6 +212,16 @@ def one_round(n, rnd, rng, tcp, shared=False):
             net.register(ADDR, srv)
             finished = run({'aet': 'SRV', 'address': ADDR[0], 'port': ADDR[1]})
             net.wait_all(60)
+            by_client = {rec['client']: rec for rec, _ in results.values()}
+            for link in net.links:
+                r_pdus = R.pdus_of(link['log'], 'R')
+                if not r_pdus or r_pdus[0]['k'] != 'RQ' or shared:
+                    continue
+                who = r_pdus[0]['calling'].rstrip(b' \0').decode('latin-1')
+                if who in by_client:
+                    pd = by_client[who]['pdus']
+                    pd['fromClient'] += [sum(4 + 1 + len(x['val']) for x in p['pdvs']) for p in r_pdus if p['k'] == 'PD']
+                    pd['fromServer'] += [sum(4 + 1 + len(x['val']) for x in p['pdvs']) for p in R.pdus_of(link['log'], 'A') if p['k'] == 'PD']
     seen = {s['inst']: s for s in srv.seen}
     cases = []
     sent_ok, all_sent, threads = [], [], []
@@ -208,6 +238,71 @@ def one_round(n, rnd, rng, tcp, shared=False):
         cases.append({'kind': 'assoc', 'a': rec})
     cases.append({'kind': 'global', 'g': {'sent': sent_ok, 'allSent': all_sent,
                                           'seen': [{'client': s['client'], 'inst': s['inst']} for s in srv.seen], 'threads': threads}})
+    return cases, finished
+
+
+DEST_ADDR = ('dest.example', 104)
+
+
+def move_round(n, rnd, rng):
+    """N clients ask ONE archive entity to move their own instances to ONE destination entity at the same time: the
+    archive serves N retrieve associations and requests N storage associations at once."""
+    archive = Server()
+    archive.add_scp(sc.qr_move_scp)
+    archive.add_scu(sc.storage_scu, [CT])
+    dest = Server()
+    dest.add_scp(sc.storage_scp)
+    dest_remote = {'aet': 'SRV', 'address': DEST_ADDR[0], 'port': DEST_ADDR[1]}
+    nsub = 3
+
+    def on_receive_move(context, ds, destination):
+        who = str(ds.PatientID)
+        insts = [make_ds(who, rnd * 100 + 50 + k, CT, [10, 300, 2000][k % 3]) for k in range(nsub)]
+        return dest_remote, nsub, iter(insts)
+    archive.on_receive_move = on_receive_move
+    results = {}
+    barrier = threading.Barrier(n)
+
+    def client(i):
+        name = 'C%02d' % i
+        cl = ae_mod.ClientAE(name, supported_ts=[TSS[i % 3]], max_pdu_length=[1024, 16384][i % 2]).add_scu(sc.qr_move_scu)
+        cl.timeout = 60
+        rec = {'client': name, 'aborted': False, 'error': '', 'negotiated': [], 'requests': [], 'extras': [],
+               'pdus': {'maxClient': 0, 'maxServer': 0, 'fromServer': [], 'fromClient': []}}
+        results[i] = (rec, [])
+        try:
+            with cl.request_association({'aet': 'SRV', 'address': ADDR[0], 'port': ADDR[1]}) as assoc:
+                q = pydicom.Dataset()
+                q.PatientID = name
+                q.QueryRetrieveLevel = 'PATIENT'
+                try:
+                    barrier.wait(60)
+                except threading.BrokenBarrierError:
+                    pass
+                mid = 100 + i
+                got = list(assoc.get_scu(sc.PATIENT_ROOT_MOVE_SOP_CLASS)(q, 'DEST', mid))
+                pend = [(r.num_of_completed_sub_ops, r.num_of_remaining_sub_ops) for st, r in got if st.is_pending]
+                fin = [(int(st), r.num_of_completed_sub_ops, r.num_of_remaining_sub_ops) for st, r in got if not st.is_pending]
+                if pend != [(k + 1, nsub - k - 1) for k in range(nsub)] or len(fin) != 1 or fin[0][1:] != (nsub, 0):
+                    rec['extras'].append('C-MOVE progress on this association: pending %s final %s' % (pend, fin))
+                if any(r.message_id_being_responded_to != mid for st, r in got):
+                    rec['extras'].append('C-MOVE responses answer another message id')
+        except Exception as exc:      # noqa
+            rec['error'] = '%s: %s' % (type(exc).__name__, exc)
+    with R.Net() as net:
+        net.register(ADDR, archive)
+        net.register(DEST_ADDR, dest)
+        ths = [threading.Thread(target=client, args=(i,), daemon=True) for i in range(n)]
+        for t in ths:
+            t.start()
+        for t in ths:
+            t.join(120)
+        finished = all(not t.is_alive() for t in ths)
+        net.wait_all(60)
+    cases = [{'kind': 'assoc', 'a': rec} for _, (rec, _) in sorted(results.items())]
+    expected = [{'client': 'C%02d' % i, 'inst': '1.2.3.%d.%d' % (i + 1, rnd * 100 + 50 + k)} for i in range(n) for k in range(nsub)]
+    cases.append({'kind': 'global', 'g': {'sent': expected, 'allSent': expected,
+                                          'seen': [{'client': x['client'], 'inst': x['inst']} for x in dest.seen], 'threads': []}})
     return cases, finished
 
 
@@ -228,6 +323,13 @@ def main(tier='quick'):
             v.report({'site': 'whole-stack', 'clause': 'round-did-not-finish'}, 'a client thread did not finish within 180 s (round %d, %d clients, tcp=%s)' % (rnd, n, tcp))
         for c in cs:
             c['round'] = rnd
+        cases.extend(cs)
+    for k in range(1 if tier == 'quick' else 6):
+        cs, finished = move_round(4 if tier == 'quick' else 8, len(plan) + k, rng)
+        if not finished:
+            v.report({'site': 'whole-stack', 'clause': 'round-did-not-finish'}, 'a C-MOVE client did not finish within 120 s')
+        for c in cs:
+            c['round'] = len(plan) + k
         cases.extend(cs)
     res, stats = tlc.validate_traces('Trace_MultiAssoc', 'Trace_MultiAssoc.cfg', [[c] for c in cases], chunk=5000)
     for c, r in zip(cases, res):
